@@ -486,6 +486,17 @@ class Inputs:
         parsed = None  # type: tuple[float, ...] | None
         if value is None:
             return value
+        try:
+            return cls._parse_value(itype, value)
+        except ValueError:
+            # The interpreter limits how many digits it converts; such a value is not a usable one
+            return None
+
+    @classmethod
+    def _parse_value(cls, itype: str, value: str) -> tuple[float, ...] | None:
+        """Parse the input value."""
+
+        parsed = None  # type: tuple[float, ...] | None
         if itype == "date":
             m = RE_DATE.match(value)
             if m:
